@@ -4,23 +4,28 @@ spec/Names.tla (shapes, objects, Name / Parent / Host / Level / TopSig, Required
 name-level rule, the bounded shape family as a state machine), spec/NamesGiven.tla (the same
 invariants on shapes handed in), spec/NamesTrace.tla (validation of logged object tables).
   1. TLC enumerates the shape family (one state = one shape: components, interfaces, signals of
-     Bits / nested bitstruct types with list fields, method ports, in lists up to 2x2, depth <= 3,
-     mentions that materialise field signals, slices, slices of slices) and checks on every shape:
+     Bits / nested bitstruct types with list fields, method ports, in regular lists up to 2x2 and in
+     ragged / mixed lists (every list tree with a bounded number of objects and empty sub-lists, nested
+     <= 3 deep: [o,[o,o]], [[o],o], [o,[o,[o,o]]], [[],o], ...), depth <= 3, mentions that materialise
+     field signals, slices, slices of slices) and checks on every shape:
      names injective over all admitted objects, parent = name without last token and an object,
      level = depth, host = nearest component, top-level signal = the declared signal, slices never
      nest, mentions resolve to flattened views, and the name-level rule agrees with the shape rule.
   2. spec -> code: every enumerated shape (plus randomly drawn large ones, which TLC first admits to
-     the family) is turned into real construct() code in a scratch module, elaborated twice, and for
-     every object of top.get_all_object_filter(lambda x: True) a row (repr, class, parent, host
+     the family) is turned into real construct() code in a scratch module (a ragged list as a list
+     literal), elaborated twice, and for every object of top.get_all_object_filter(lambda x: True) a row (repr, class, parent, host
      component, level, top-level signal, eval identity) is logged.
   3. code -> spec: NamesTrace validates the tables: Required <= names <= Allowed, no duplicate,
-     every field as predicted, eval(repr(o)) is o, both elaborations give the same names.
+     every field as predicted, eval(repr(o)) is o, both elaborations give the same names.  A member of
+     the family on which construction / elaboration raises is reported too (clause elaboration-raises).
   4. hierarchies shipped with the repository (stdlib queues, arbiters, crossbar, memories, example
      processors and accelerators) are validated against the name-level rule alone.
-  5. canaries: corrupted copies of accepted tables must be rejected with the expected clause; an
-     ill-formed shape must violate AllInv.
+  5. canaries: corrupted copies of accepted tables (among them: an object of a sub-list of a ragged list
+     missing / named with one index less / more) must be rejected with the expected clause; ill-formed
+     shapes (duplicate path, list trees whose flattening is not one) must violate AllInv.
 
-NOTE: lists are homogeneous (every element of a list has the same sub-shape); field / slice signals
+NOTE: every element of a list (regular or ragged) has the same sub-shape, i.e. the same class; ragged
+lists hold objects of one class (bitstruct list fields are always regular); field / slice signals
 are materialised by update-block reads and by connect statements to sink wires only; tables are
 taken right after elaborate() (no passes applied).  Views carry no _dsl.level in pymtl3: the spec
 admits an absent level (or the depth) for them.  The harness tokeniser is not trusted: the spec
@@ -43,11 +48,14 @@ ALLM = '{"CallerPort", "CalleePort"}'
 
 
 def _cfg(MaxDecl, MaxDeclM=0, MaxMent=0, MaxSl=1, MaxDepth=3, MaxFields=3, dims="{0, 2, 22}",
-         types='{"B4", "P"}', kinds=ALLK, mps=ALLM, chain=False, spec="Spec", inv=("AllInv",)):
+         types='{"B4", "P"}', kinds=ALLK, mps=ALLM, chain=False, spec="Spec", inv=("AllInv",), rag=(0, 0, 0)):
+    """rag = (RagSize, RagDepth, RagEmpty): ragged lists with at most RagSize entries (objects + empty
+    sub-lists) in total, nested at most RagDepth deep, at most RagEmpty empty sub-lists each"""
     t = ("SPECIFICATION %s\nCONSTANTS MaxDecl = %d\n MaxDeclM = %d\n MaxMent = %d\n MaxSl = %d\n MaxDepth = %d\n"
          " MaxFields = %d\n DimCodes = %s\n SigTypes = %s\n SigKindsE = %s\n MpKindsE = %s\n ChainOnly = %s\n"
+         " RagSize = %d\n RagDepth = %d\n RagEmpty = %d\n"
          % (spec, MaxDecl, MaxDeclM, MaxMent, MaxSl, MaxDepth, MaxFields, dims, types, kinds, mps,
-            "TRUE" if chain else "FALSE"))
+            "TRUE" if chain else "FALSE", rag[0], rag[1], rag[2]))
     for i in inv:
         t += "INVARIANT %s\n" % i
     return t + "CHECK_DEADLOCK FALSE\n"
@@ -58,28 +66,45 @@ CLAUSES = ("ShapeOK", "NameInjective", "ParentByName", "HostIsNearestComponent",
 
 
 def families(tier):
+    """(name, constants, actions that must be taken, relative weight = share of the TLC workers)"""
     q = tier == "quick"
+    DECL = ("DoAddComp", "DoAddIfc", "DoAddSig", "DoAddMp")
     fam = [
-        # structures: every tree with <= n declarations
-        ("S", dict(MaxDecl=2 if q else 3, dims="{0, 2, 22}" if q else "{0, 2, 12, 22}",
-                   types='{"B4", "P"}'), ("DoAddComp", "DoAddIfc", "DoAddSig", "DoAddMp")),
+        # structures: every tree with <= 2 declarations
+        ("S", dict(MaxDecl=2, dims="{0, 2, 22}" if q else "{0, 2, 12, 22}", types='{"B4", "P"}'), DECL, 3),
         # chains down to depth 3 (lists in interfaces in lists ...)
         ("C", dict(MaxDecl=3, chain=True, dims="{0, 2, 22}" if q else "{0, 2, 12, 22}",
-                   types='{"B4", "P"}' if q else '{"B1", "B4", "I", "P"}'),
-         ("DoAddComp", "DoAddIfc", "DoAddSig", "DoAddMp")),
+                   types='{"B4", "I"}' if q else '{"B1", "B4", "I", "P"}'), DECL, 4),
         # views: one signal, every mention expression (fields, list fields, slices, slices of slices)
         ("V", dict(MaxDecl=1, MaxDeclM=1, MaxMent=1, MaxSl=2, kinds='{"Wire"}' if q else ALLK,
                    dims="{0, 22}" if q else "{0, 2, 22}", types='{"B4", "P"}', mps="{}"),
-         ("DoAddSig", "DoAddMention")),
+         ("DoAddSig", "DoAddMention"), 2),
+        # ragged / mixed lists: one attribute of every class holding every list tree with <= n entries
+        # (objects + empty sub-lists), nested <= 3 deep: [o,[o,o]], [[o],o], [o,[o,[o]]], [[],o], ...
+        ("G", dict(MaxDecl=1, dims="{0}", types='{"B4"}', kinds='{"Wire", "InPort"}' if q else ALLK,
+                   mps='{"CalleePort"}' if q else ALLM, rag=(3, 3, 1) if q else (4, 3, 1)), DECL, 1 if q else 3),
+        # two attributes (the second inside every element of the first: lists inside interfaces inside
+        # ragged lists, ragged lists inside ragged lists; thorough: also siblings) sharing the entry budget
+        ("GC", dict(MaxDecl=2, chain=q, dims="{0, 2}", types='{"B4"}', kinds='{"Wire"}', mps='{"CalleePort"}',
+                    rag=(3, 2, 0) if q else (4, 2, 0)), DECL, 1 if q else 3),
+        # views of signals in ragged lists: first / last object of the list, every mention expression
+        ("GV", dict(MaxDecl=1, MaxDeclM=1, MaxMent=1, MaxSl=1, kinds='{"Wire"}', dims="{0}", types='{"I"}',
+                    mps="{}", rag=(2, 2, 1) if q else (3, 2, 1)), ("DoAddSig", "DoAddMention"), 1),
     ]
     if not q:
         fam += [
+            # every tree with <= 3 declarations over a smaller palette
+            ("S3", dict(MaxDecl=3, dims="{0, 2, 22}", types='{"B4", "I"}', kinds='{"Wire", "InPort"}',
+                        mps='{"CalleePort"}'), DECL, 8),
             ("V3", dict(MaxDecl=1, MaxDeclM=1, MaxMent=1, MaxSl=3, kinds='{"Wire", "InPort"}', dims="{0, 2}",
-                        types='{"B4", "I"}', mps="{}"), ("DoAddSig", "DoAddMention")),
+                        types='{"B4", "I"}', mps="{}"), ("DoAddSig", "DoAddMention"), 2),
             ("VV", dict(MaxDecl=1, MaxDeclM=1, MaxMent=2, MaxSl=2, kinds='{"Wire"}', dims="{0}",
-                        types='{"B4"}', mps="{}"), ("DoAddSig", "DoAddMention")),
+                        types='{"B4"}', mps="{}"), ("DoAddSig", "DoAddMention"), 2),
             ("VC", dict(MaxDecl=3, MaxDeclM=3, MaxMent=1, MaxSl=2, chain=True, dims="{0, 22}", types='{"B4"}',
-                        mps="{}"), ("DoAddComp", "DoAddIfc", "DoAddSig", "DoAddMention")),
+                        mps="{}"), ("DoAddComp", "DoAddIfc", "DoAddSig", "DoAddMention"), 2),
+            # chains of three through ragged lists
+            ("GCC", dict(MaxDecl=3, chain=True, dims="{0, 2}", types='{"B4"}', kinds='{"Wire"}',
+                         mps='{"CalleePort"}', rag=(3, 2, 0)), DECL, 2),
         ]
     return fam
 
@@ -90,18 +115,24 @@ def families(tier):
 
 def _name_clause(kw):
     """AllInv failed: run the clauses one by one to name the failing one"""
-    bad = []
     r = tlc.run("Names", cfg_text=_cfg(inv=CLAUSES, **kw), timeout=7200)
     return r.violated or ["AllInv"], r
 
 
-def _enumerate(res, tier):
-    shapes = {}
+def _enumerate_tlc(tier):
     from concurrent.futures import ThreadPoolExecutor
     fams = families(tier)
-    with ThreadPoolExecutor(max_workers=len(fams)) as ex:      # the families are independent TLC runs
-        dumps = list(ex.map(lambda f: _dump("Names", _cfg(**f[1])), fams))
-    for (name, kw, acts), (r, states, init, edges) in zip(fams, dumps):
+    ncpu = os.cpu_count() or 4
+    wsum = sum(f[3] for f in fams)
+    # the families are independent TLC runs; they share the cores according to their weights
+    with ThreadPoolExecutor(max_workers=len(fams)) as ex:
+        dumps = list(ex.map(lambda f: _dump("Names", _cfg(**f[1]), workers=max(2, (2 * ncpu * f[3]) // wsum)), fams))
+    return fams, dumps
+
+
+def _enumerate_merge(res, fams, dumps):
+    shapes = {}
+    for (name, kw, acts, _), (r, states, init, edges) in zip(fams, dumps):
         res.add_tlc(r)
         if r.violated:
             which, r2 = _name_clause(kw)
@@ -116,26 +147,41 @@ def _enumerate(res, tier):
             if r.coverage.get(a, (0, 0))[1] == 0:
                 raise MachineryError("action %s never taken in Names family %s (vacuous)" % (a, name))
         n0 = len(shapes)
+        nrag = 0
         for st in states.values():
             sh = H.shape_from_state(st)
+            nrag += any(d["rag"] for d in sh["decl"])
             shapes.setdefault(H.shape_key(sh), (name, sh))
+        if kw.get("rag", (0, 0, 0))[0] and nrag == 0:
+            raise MachineryError("family %s offers ragged lists but no shape has one (vacuous)" % name)
         res.note("family_%s_states" % name, r.distinct)
         res.note("family_%s_new_shapes" % name, len(shapes) - n0)
+        res.count("ragged_shapes_enumerated", nrag)
     return shapes
 
 
-def _dump(module, cfg_text, env=None):
-    """model-check with all workers, invariants and coverage, and read back the dumped states"""
+def _dump(module, cfg_text, env=None, workers=None):
+    """model-check with invariants and read back the dumped state graph.  TLC's own `-coverage` makes
+    these runs several times slower; the per-action counts are taken from the action labels of the
+    dumped edges instead (every transition TLC generated is in the dump)."""
     import tempfile
     import shutil
     tmp = tempfile.mkdtemp(prefix="c14dump_")
     try:
         pref = os.path.join(tmp, "graph")
-        r = tlc.run(module, cfg_text=cfg_text, env=env, dump=pref, coverage=True, timeout=7200)
+        r = tlc.run(module, cfg_text=cfg_text, env=env, dump=pref, coverage=False, timeout=7200, workers=workers)
         path = pref + ".dot" if os.path.exists(pref + ".dot") else pref
         if r.violated or not os.path.exists(path):
             return r, {}, set(), []
         states, init, edges = tlc.parse_dot(path)
+        if len(edges) + len(init) < r.generated:
+            raise MachineryError("state graph dump of %s has %d edges + %d initial states, TLC generated %d states"
+                                 % (module, len(edges), len(init), r.generated))
+        cov = {"Init": (len(init), len(init))}
+        for e in edges:
+            d, n = cov.get(e[2], (0, 0))
+            cov[e[2]] = (d + 1, n + 1)
+        r.coverage = cov
         return r, states, init, edges
     finally:
         shutil.rmtree(tmp, ignore_errors=True)
@@ -168,7 +214,25 @@ def _rand_expr(R, ty, nsl):
     return e
 
 
-def _rand_shape(R):
+def _rand_tree(R, depth, budget):
+    """a random list tree (None = object): 1-3 elements, each an object, a sub-list or (rarely) an empty
+    list; budget[0] bounds the number of objects"""
+    out = []
+    for _ in range(R.randint(1, 3)):
+        x = R.random()
+        if depth > 1 and x < 0.4:
+            out.append(_rand_tree(R, depth - 1, budget))
+        elif depth > 1 and x < 0.5:
+            out.append([])
+        elif budget[0] > 0:
+            budget[0] -= 1
+            out.append(None)
+    if not out:
+        out.append([] if depth > 1 else None)
+    return out
+
+
+def _rand_shape(R, ragged=0.3):
     decl = []
     dims_pal = [[], [], [2], [2], [2, 2], [1, 2]]
 
@@ -183,7 +247,10 @@ def _rand_shape(R):
             if depth == 1:
                 opts += ["comp", "ifc"]
             k = R.choice(opts)
-            d = {"path": path + [n], "dims": list(R.choice(dims_pal)), "ty": ""}
+            d = {"path": path + [n], "dims": list(R.choice(dims_pal)), "rag": [], "ty": ""}
+            if R.random() < ragged:
+                d["dims"] = []
+                d["rag"] = H.rag_flat(_rand_tree(R, R.randint(2, 3), [R.randint(2, 5)]))
             if k == "sig":
                 d["kind"] = R.choice(H.SIG)
                 d["ty"] = R.choice(["B1", "B4", "B4", "I", "P", "P"])
@@ -203,12 +270,16 @@ def _rand_shape(R):
             if d["kind"] in ("comp", "ifc") and depth < 3:
                 queue.append((d["path"], d["kind"], depth + 1))
     sh = {"decl": decl, "ment": []}
-    sigs = [d for d in decl if d["kind"] in H.SIG]
+    def below_host(d):
+        hp = H.host_path(sh, d["path"])
+        return [H.leaves(H._decl_at(sh, d["path"][:len(hp) + k + 1])) for k in range(len(d["path"]) - len(hp))]
+
+    # signals an instance of which the host's class can name (no list on the way is without objects)
+    sigs = [d for d in decl if d["kind"] in H.SIG and all(below_host(d))]
     for _ in range(R.randint(0, 4) if sigs else 0):
         d = R.choice(sigs)
         hp = H.host_path(sh, d["path"])
-        ix = [[R.randrange(x) for x in H._decl_at(sh, d["path"][:len(hp) + k + 1])["dims"]]
-              for k in range(len(d["path"]) - len(hp))]
+        ix = [list(R.choice(lv)) for lv in below_host(d)]
         can_connect = d["kind"] in ("Wire", "OutPort") or hp == []
         how = "connect" if can_connect and R.random() < 0.6 else "upblk"
         m = {"path": d["path"], "ix": ix, "expr": _rand_expr(R, d["ty"], 3 if how == "connect" else 1), "how": how}
@@ -218,63 +289,78 @@ def _rand_shape(R):
     return sh
 
 
-def _random_family(res, tier, shapes):
+GIVEN = dict(MaxDecl=99, MaxDeclM=99, MaxMent=9, MaxSl=3, spec="SpecGiven", dims="{0}", types='{"B4"}')
+
+
+def _random_given(tier):
+    """randomly drawn large shapes; every second one with ragged / mixed lists"""
     R = rng("c14-shapes")
     n = 150 if tier == "quick" else 2000
     given = []
-    seen = set(shapes)
+    seen = set()
     while len(given) < n:
-        sh = _rand_shape(R)
+        sh = _rand_shape(R, ragged=0.35 if len(given) % 2 else 0.0)
         k = H.shape_key(sh)
         if k not in seen:
             seen.add(k)
             given.append(sh)
-    with common.scratch() as d:
-        # TLC admits them to the family (ShapeOK) and checks the invariants on each
-        per = (len(given) + 7) // 8
-        chunks = list(range(0, len(given), per))
-        fns = {}
-        for c in chunks:
-            fns[c] = os.path.join(d, "given_%d.json" % c)
-            with open(fns[c], "w") as f:
-                json.dump({"shapes": given[c:c + per]}, f)
+    return given
 
-        def _one(c):
-            return tlc.run("NamesGiven", cfg_text=_cfg(MaxDecl=99, MaxDeclM=99, MaxMent=9, MaxSl=3, spec="SpecGiven",
-                                                       dims="{0}", types='{"B4"}'),
-                           env={"VERIF_INPUT": fns[c]}, timeout=7200, workers=2)
 
-        from concurrent.futures import ThreadPoolExecutor
-        with ThreadPoolExecutor(max_workers=max(2, (os.cpu_count() or 4) // 2)) as ex:
-            runs = list(ex.map(_one, chunks))
-        for c, r in zip(chunks, runs):
-            fn = fns[c]
-            res.add_tlc(r)
-            if r.violated:
-                r2 = tlc.run("NamesGiven", cfg_text=_cfg(MaxDecl=99, MaxDeclM=99, MaxMent=9, MaxSl=3,
-                                                         spec="SpecGiven", dims="{0}", types='{"B4"}', inv=CLAUSES),
-                             env={"VERIF_INPUT": fn}, timeout=7200)
-                if "ShapeOK" in r2.violated:
-                    raise MachineryError("a randomly drawn shape is outside the family of Names.tla\n" + r2.out[-2000:])
-                res.violation("model:R:%s" % ",".join(r2.violated), "Names.tla violates %s on a random shape"
-                              % r2.violated, r2.out[-3000:])
-            elif not r.ok or r.distinct != len(given[c:c + per]):
-                raise MachineryError("NamesGiven failed: %s (%d states for %d shapes)\n%s"
-                                     % (r.errors, r.distinct, len(given[c:c + per]), r.out[-2000:]))
-        # model canary: an ill-formed shape (duplicate path) must be thrown out by AllInv
-        bad = {"decl": [{"path": ["a"], "kind": "Wire", "dims": [], "ty": "B4"},
-                        {"path": ["a"], "kind": "comp", "dims": [2], "ty": ""}], "ment": []}
-        fn = os.path.join(d, "bad.json")
-        with open(fn, "w") as f:
+def _random_tlc(given, d, nproc):
+    """TLC admits the shapes to the family (ShapeOK) and checks the invariants on each;
+    returns [(shapes of the chunk, file, run)] and the run of the model canary"""
+    per = (len(given) + nproc - 1) // nproc
+    chunks = list(range(0, len(given), per))
+    fns = {}
+    for c in chunks:
+        fns[c] = os.path.join(d, "given_%d.json" % c)
+        with open(fns[c], "w") as f:
+            json.dump({"shapes": given[c:c + per]}, f)
+    # model canaries: ill-formed shapes (duplicate path; a list tree whose flattening skips an index,
+    # names an object below an object, or is out of order) must be thrown out by AllInv
+    bads = [{"decl": [{"path": ["a"], "kind": "Wire", "dims": [], "rag": [], "ty": "B4"},
+                      {"path": ["a"], "kind": "comp", "dims": [2], "rag": [], "ty": ""}], "ment": []}]
+    for rag in ([([0], True), ([2], True)], [([0], True), ([0, 0], True)], [([1], True), ([0], True)],
+                [([0], True), ([1, 1], True)], [([], True)]):
+        bads.append({"decl": [{"path": ["a"], "kind": "Wire", "dims": [], "ty": "B4",
+                               "rag": [{"ix": ix, "leaf": lf} for ix, lf in rag]}], "ment": []})
+    bfn = []
+    for i, bad in enumerate(bads):
+        bfn.append(os.path.join(d, "bad_%d.json" % i))
+        with open(bfn[-1], "w") as f:
             json.dump({"shapes": [bad]}, f)
-        r = tlc.run("NamesGiven", cfg_text=_cfg(MaxDecl=99, MaxDeclM=99, MaxMent=9, MaxSl=3, spec="SpecGiven",
-                                                dims="{0}", types='{"B4"}'), env={"VERIF_INPUT": fn}, timeout=600)
+
+    def _one(fn):
+        return tlc.run("NamesGiven", cfg_text=_cfg(**GIVEN), env={"VERIF_INPUT": fn}, timeout=7200, workers=2)
+
+    from concurrent.futures import ThreadPoolExecutor
+    with ThreadPoolExecutor(max_workers=nproc) as ex:
+        runs = list(ex.map(_one, [fns[c] for c in chunks] + bfn))
+    return [(given[c:c + per], fns[c], r) for c, r in zip(chunks, runs)], runs[len(chunks):]
+
+
+def _random_merge(res, given, chunk_runs, bad_runs, shapes):
+    for part, fn, r in chunk_runs:
+        res.add_tlc(r)
+        if r.violated:
+            r2 = tlc.run("NamesGiven", cfg_text=_cfg(inv=CLAUSES, **GIVEN), env={"VERIF_INPUT": fn}, timeout=7200)
+            if "ShapeOK" in r2.violated:
+                raise MachineryError("a randomly drawn shape is outside the family of Names.tla\n" + r2.out[-2000:])
+            res.violation("model:R:%s" % ",".join(r2.violated), "Names.tla violates %s on a random shape"
+                          % r2.violated, r2.out[-3000:])
+        elif not r.ok or r.distinct != len(part):
+            raise MachineryError("NamesGiven failed: %s (%d states for %d shapes)\n%s"
+                                 % (r.errors, r.distinct, len(part), r.out[-2000:]))
+    for i, r in enumerate(bad_runs):
         if "AllInv" not in r.violated:
-            raise MachineryError("model canary: AllInv accepted a shape with a duplicate path\n" + r.out[-1500:])
+            raise MachineryError("model canary %d: AllInv accepted an ill-formed shape\n%s" % (i, r.out[-1500:]))
+    res.note("model_canaries_rejected", len(bad_runs))
     res.note("random_shapes", len(given))
+    res.note("random_shapes_ragged", sum(1 for s in given if any(d["rag"] for d in s["decl"])))
     res.note("random_shape_max_decl", max(len(s["decl"]) for s in given))
     for sh in given:
-        shapes[H.shape_key(sh)] = ("R", sh)
+        shapes.setdefault(H.shape_key(sh), ("R", sh))
 
 
 # --------------------------------------------------------------------------------------
@@ -295,10 +381,20 @@ def _build(shapes):
     if len(traces) != len(items):
         raise MachineryError("worker returned %d traces for %d shapes" % (len(traces), len(items)))
     for (fam, sh), t in zip(items, traces):
-        if "error" in t:
-            raise MachineryError("generated hierarchy does not elaborate (family %s, %s):\n%s\n%s"
+        if "error" in t and "exc" not in t:
+            raise MachineryError("generated module cannot be imported (family %s, %s):\n%s\n%s"
                                  % (fam, H.describe(sh), H.gen_source(sh), t["error"]))
     return traces
+
+
+def _report_raise(res, fam, sh, t):
+    """a hierarchy of the family (TLC admitted the shape) on which construction / elaboration raises"""
+    lists = sorted({H.rag_class(d["rag"]) for d in sh["decl"] if d["rag"]})
+    key = "shape:elaboration-raises:%s@%s:%s" % (t["exc"], t["where"], "/".join(lists))
+    res.violation(key, "generated hierarchy [%s]: construction / elaboration raises %s in %s: %s"
+                  % (H.describe(sh), t["exc"], t["where"], t["error"].strip().splitlines()[-1][:200]),
+                  {"clause": "elaboration-raises", "shape": sh, "source": H.gen_source(sh), "label": fam,
+                   "traceback": t["error"][-3000:]})
 
 
 def _payload(t):
@@ -329,6 +425,13 @@ def _report(res, t, err, pos, label):
         ident = t["design"] + ":"
     if e.get("k") == "obj":
         sig = H.signature(e["name"], kinds) if t["mode"] == "shape" else e["name"]
+        if H.tokenize(e["name"]) is None:
+            # repr() is not a hierarchical name at all (the default '<... object at 0x...>': the object was
+            # never named); identify it by its class and, for generated shapes, the lists it can come from
+            sig = "<unnamed %s>" % e["kind"]
+            if t["mode"] == "shape":
+                sig += ":" + "/".join(sorted({H.rag_class(d["rag"]) if d["rag"] else "[]" * len(d["dims"])
+                                              for d in t["shape"]["decl"] if d["kind"] == e["kind"]}))
         what = "%s: object %s (%s) logged parent=%r host=%r level=%s top-level-signal=%r eval-identity=%s" % (
             err, e["name"], e["kind"], e["parent"], e["host"], e["level"], e["tls"], e["ev"])
     else:
@@ -447,11 +550,41 @@ def _rows(t, e=1):
     return [i for i, x in enumerate(t["ev"]) if x["k"] == "obj" and x["e"] == e]
 
 
-def _canaries(res, good_shape, good_repo):
+def _canaries(res, good_shape, good_repo, good_rag):
     can = []        # (trace, set of acceptable clauses, label)
 
     def add(t, exp, label):
         can.append((t, exp, label))
+
+    # ragged lists: an object inside a sub-list loses its name / gets the index path of another position
+    nrag = 0
+    for t in good_rag:
+        parents = {x["parent"] for x in t["ev"] if x["k"] == "obj"}
+        sub = [i for i in _rows(t) if t["ev"][i]["toks"] and len(t["ev"][i]["toks"][-1]["ix"]) >= 2
+               and t["ev"][i]["toks"][-1]["t"] == "f" and t["ev"][i]["name"] not in parents]
+        if not sub:
+            continue
+        nm = t["ev"][sub[-1]]["name"]
+        c = copy.deepcopy(t)                                 # never named: not in the table
+        c["ev"] = [x for x in c["ev"] if not (x["k"] == "obj" and x["name"] == nm)]
+        _reindex(c)
+        add(c, {"required-object-missing"}, "ragged-object-missing")
+        c = copy.deepcopy(t)                                 # named as if it were the sub-list it is in
+        x = c["ev"][sub[-1]]
+        x["toks"][-1]["ix"] = x["toks"][-1]["ix"][:-1]
+        x["name"] = "s" + "".join(H.tok_text(k) for k in x["toks"])
+        add(c, {"name-not-allowed"}, "ragged-index-dropped")
+        c = copy.deepcopy(t)                                 # one index too many
+        x = c["ev"][sub[0]]
+        x["toks"][-1]["ix"] = x["toks"][-1]["ix"] + [0]
+        x["name"] = "s" + "".join(H.tok_text(k) for k in x["toks"])
+        add(c, {"name-not-allowed"}, "ragged-index-added")
+        nrag += 1
+        if nrag >= 8:
+            break
+    if nrag < 3:
+        raise MachineryError("not enough accepted tables with ragged lists to build canaries from (%d)" % nrag)
+    n0 = len(can)
 
     # tables with at least one view and one object below depth 1
     for t in good_shape:
@@ -506,7 +639,7 @@ def _canaries(res, good_shape, good_repo):
         add(c, {"wrong-kind"}, "wrong-kind")
         c = copy.deepcopy(t); c["ev"][deep[0]]["toks"][-1]["n"] += "x"                # harness tokeniser lying
         add(c, {"name-not-parseable"}, "bad-tokens")
-        if len(can) >= 48:
+        if len(can) - n0 >= 48:
             break
     nshape = len(can)
     for t in good_repo:
@@ -527,15 +660,16 @@ def _canaries(res, good_shape, good_repo):
         add(c, {"wrong-host"}, "repo-wrong-host")
         if len(can) - nshape >= 15:
             break
-    if nshape < 13 or len(can) - nshape < 5:
-        raise MachineryError("not enough accepted tables to build canaries from (%d, %d)" % (nshape, len(can) - nshape))
+    if nshape - n0 < 13 or len(can) - nshape < 5:
+        raise MachineryError("not enough accepted tables to build canaries from (%d, %d)"
+                             % (nshape - n0, len(can) - nshape))
     _, cv = tlc.validate_traces("NamesTrace", {"traces": [_payload(c[0]) for c in can]})
     seen = set()
     for (c, exp, label), (err, pos) in zip(can, cv):
         if err not in exp:
             raise MachineryError("canary %s: NamesTrace answered %r instead of %s" % (label, err, sorted(exp)))
         seen.add(label)
-    need = {"duplicate-name", "wrong-parent", "wrong-level", "eval-false", "wrong-host", "wrong-tls",
+    need = {"ragged-object-missing", "ragged-index-dropped", "ragged-index-added", "duplicate-name", "wrong-parent", "wrong-level", "eval-false", "wrong-host", "wrong-tls",
             "required-missing", "re-elaboration", "name-not-allowed", "repo-wrong-parent", "repo-wrong-level",
             "repo-eval-false", "repo-duplicate"}
     if need - seen:
@@ -557,22 +691,48 @@ def _reindex(c):
 
 # --------------------------------------------------------------------------------------
 
+def _cpu():
+    import resource
+    a, b = resource.getrusage(resource.RUSAGE_CHILDREN), resource.getrusage(resource.RUSAGE_SELF)
+    return a.ru_utime + a.ru_stime + b.ru_utime + b.ru_stime
+
+
 def run(res, tier):
     import time
+    from concurrent.futures import ThreadPoolExecutor
     t0 = time.time()
-    shapes = _enumerate(res, tier)
-    res.note("t_enumerate_s", round(time.time() - t0, 1)); t0 = time.time()
-    _random_family(res, tier, shapes)
-    res.note("t_random_family_s", round(time.time() - t0, 1)); t0 = time.time()
+    c0 = _cpu()
+    res.note("load_average_at_start", round(os.getloadavg()[0], 1))
+    given = _random_given(tier)
+    ncpu = os.cpu_count() or 4
+    with common.scratch() as d:
+        # the shape families and the admission of the random shapes are independent TLC jobs
+        with ThreadPoolExecutor(max_workers=2) as ex:
+            f_rand = ex.submit(_random_tlc, given, d, max(2, ncpu // 2))
+            f_enum = ex.submit(_enumerate_tlc, tier)
+            fams, dumps = f_enum.result()
+            res.note("t_enumerate_s", round(time.time() - t0, 1))
+            chunk_runs, bad_runs = f_rand.result()
+            res.note("t_enumerate_and_random_family_s", round(time.time() - t0, 1)); t0 = time.time()
+            res.note("cpu_enumerate_and_random_family_s", round(_cpu() - c0, 1)); c0 = _cpu()
+        shapes = _enumerate_merge(res, fams, dumps)
+        _random_merge(res, given, chunk_runs, bad_runs, shapes)
+    res.note("t_merge_s", round(time.time() - t0, 1)); t0 = time.time()
     items = sorted(shapes.values(), key=lambda fs: (len(fs[1]["decl"]) + len(fs[1]["ment"]), H.shape_key(fs[1])))
     traces = _build(items)
+    raised = [(fs, t) for fs, t in zip(items, traces) if "error" in t]
+    res.note("shapes_elaboration_raises", len(raised))
+    items = [fs for fs, t in zip(items, traces) if "error" not in t]
+    traces = [t for t in traces if "error" not in t]
     rtraces = _repo_traces(tier)
     res.note("t_build_s", round(time.time() - t0, 1)); t0 = time.time()
+    res.note("cpu_build_s", round(_cpu() - c0, 1)); c0 = _cpu()
     verdicts = _validate(res, traces + rtraces)
     res.note("t_validate_s", round(time.time() - t0, 1)); t0 = time.time()
+    res.note("cpu_validate_s", round(_cpu() - c0, 1)); c0 = _cpu()
     res.add_traces(len(traces) + len(rtraces))
     nobj = 0
-    good_shape, good_repo = [], []
+    good_shape, good_repo, good_rag = [], [], []
     for (fam, sh), t, (err, pos) in zip(items, traces, verdicts):
         rows = [e for e in t["ev"] if e["k"] == "obj" and e["e"] == 1]
         nobj += len(rows)
@@ -581,8 +741,11 @@ def run(res, tier):
         res.count("views_logged", sum(1 for e in rows if e["level"] == -1))
         if err != "ok":
             _report(res, t, err, pos, fam)
-        elif sh["ment"] and len(sh["decl"]) >= 3:
-            good_shape.append(t)
+        else:
+            if sh["ment"] and len(sh["decl"]) >= 3:
+                good_shape.append(t)
+            if len(good_rag) < 200 and any(e["leaf"] and len(e["ix"]) >= 2 for d in sh["decl"] for e in d["rag"]):
+                good_rag.append(t)
     for t, (err, pos) in zip(rtraces, verdicts[len(traces):]):
         rows = [e for e in t["ev"] if e["k"] == "obj" and e["e"] == 1]
         res.distinct(("repo", t["design"]))
@@ -592,10 +755,14 @@ def run(res, tier):
             _report(res, t, err, pos, "repo")
         else:
             good_repo.append(t)
+    for (fam, sh), t in raised:
+        _report_raise(res, fam, sh, t)
     res.add_evals(sum(len(t["ev"]) for t in traces + rtraces))
     if res.notes.get("views_logged", 0) == 0 or res.notes.get("repo_views_logged", 0) == 0:
         raise MachineryError("no field / slice signal was ever logged (vacuous)")
-    _canaries(res, good_shape[::-1], good_repo[::-1])
+    _canaries(res, good_shape[::-1], good_repo[::-1], good_rag[::-1])
+    res.note("t_canaries_s", round(time.time() - t0, 1))
+    res.note("cpu_canaries_s", round(_cpu() - c0, 1))
     big = [t for t in traces if len(t["shape"]["decl"]) >= 6 and t["shape"]["ment"]]
     for t in (big[:2] + traces[len(traces) // 2:len(traces) // 2 + 1]):
         res.sample({"kind": "shape", "shape": H.describe(t["shape"]),
@@ -606,14 +773,23 @@ def run(res, tier):
     res.note("repo_designs", len(rtraces))
     res.cov["exhaustive"] = True
     res.note("rule", "one case = one shape (declaration tree + mention statements) of the Names.tla family or one "
-             "repository design; families: S all trees with <= %d declarations, C all chains to depth 3, V one "
-             "signal with every mention expression (fields, list fields, slices, slices of slices up to 2 levels)%s, "
-             "R randomly drawn trees with up to 3 attributes per level, depth 3 and up to 4 mentions (admitted by "
+             "repository design; families: S all trees with <= 2 declarations%s, C all chains to depth 3, V one "
+             "signal with every mention expression (fields, list fields, slices, slices of slices up to 2 levels), "
+             "G one attribute of every class holding every ragged / mixed list tree with <= %d entries (objects + at "
+             "most one empty sub-list) nested <= 3 deep, GC two attributes sharing %d entries (ragged in ragged, "
+             "regular in ragged, ragged in regular), GV a signal in a ragged list with every mention expression%s, "
+             "R randomly drawn trees with up to 3 attributes per level, depth 3, up to 4 mentions, every second one "
+             "with random ragged lists (admitted by "
              "TLC via ShapeOK); every shape is built as real construct() code, elaborated twice and all objects of "
              "get_all_object_filter are validated row by row"
-             % (2 if tier == "quick" else 3, "" if tier == "quick" else
-                ", V3 three slice levels, VV pairs of mentions on one signal, VC chains with a mention"))
-    res.assume("lists are homogeneous: all elements of a list have the same sub-shape")
+             % ("" if tier == "quick" else " (S3: <= 3 declarations over a smaller palette)",
+                3 if tier == "quick" else 4, 3 if tier == "quick" else 4,
+                "" if tier == "quick" else
+                ", V3 three slice levels, VV pairs of mentions on one signal, VC chains with a mention, GCC "
+                "chains of three through ragged lists"))
+    res.assume("all objects of a list (regular or ragged / mixed) have the same class and sub-shape; the top level "
+               "of a list attribute is never empty and its first element is an object or a list (pymtl3 treats "
+               "other lists as plain Python attributes); empty sub-lists hold no object")
     res.assume("views are materialised by update-block reads and connects to sink wires only; tables are taken "
                "right after elaborate(), no pass applied")
     res.assume("a view without _dsl.level is accepted (pymtl3 never sets it); if present it must equal the depth")
@@ -630,6 +806,9 @@ def replay(obj):
     print(H.describe(sh))
     print(H.PREAMBLE + H.gen_source(sh))
     t = _build([("replay", sh)])[0]
+    if "error" in t:
+        print(t["error"])
+        return 1
     _, v = tlc.validate_traces("NamesTrace", {"traces": [_payload(t)]})
     print("verdict:", v[0])
     if v[0][0] != "ok":
